@@ -12,7 +12,7 @@ import re
 from fractions import Fraction
 
 from analysis import (Prov, Guards, fmt, fmt_short, walk, roots, short, comparison, linear, _lin_add, const_int_of,
-                      callee_matches, transparent_args, cast_is_lossless)
+                      callee_matches, transparent_args, cast_is_lossless, canon, subst_expr)
 
 INT_RANGES = {"u8": (0, 2 ** 8 - 1), "u16": (0, 2 ** 16 - 1), "u32": (0, 2 ** 32 - 1), "u64": (0, 2 ** 64 - 1), "usize": (0, 2 ** 64 - 1),
               "i32": (-2 ** 31, 2 ** 31 - 1), "i64": (-2 ** 63, 2 ** 63 - 1), "isize": (-2 ** 63, 2 ** 63 - 1)}
@@ -135,10 +135,30 @@ class Aff:
         return b.tys[t.j["dty"]]
 
     # ------------------------------------------------------------------ lengths
+    def _resolve(self, e):
+        """a value read out of the result of a spliced helper (`let (a, b) = helper(..)?`): the projection of the `?` payload is replaced by
+        the component of the helper's Ok value it denotes"""
+        def fn(x):
+            if isinstance(x, tuple) and x and x[0] == "field" and isinstance(x[1], tuple):
+                y = x
+                while isinstance(y, tuple) and y and y[0] in ("field", "as"):
+                    y = y[1]
+                if isinstance(y, tuple) and y and y[0] == "call" and re.search(r"Try>?::branch$", short(y[1])) and y[2] and \
+                        any(z[0] == "agg" and z[1].endswith("Result::Ok") for z in walk(y[2][0]) if isinstance(z, tuple) and z and z[0] == "agg"):
+                    c = canon(x)
+                    if c[0] != "unknown" and c != x:
+                        return c
+            return None
+        if not any(isinstance(z, tuple) and z and z[0] == "call" and z[1].endswith("::branch") for z in walk(e)):
+            return e
+        return subst_expr(e, fn)
+
     def length(self, e, depth=0):
         """linear form of the length of a slice / Vec / array valued expression, or None"""
         if depth > 30:
             return None
+        if depth == 0:
+            e = self._resolve(e)
         k = e[0]
         if k == "phi":
             forms = [self.length(x, depth + 1) for x in e[1] if x != ("cycle",)]
@@ -244,6 +264,8 @@ class Aff:
 
     # ------------------------------------------------------------------ integer values
     def value(self, e):
+        e = self._resolve(e)
+
         def atom(x):
             if x[0] == "call":
                 n = short(x[1])
